@@ -25,6 +25,7 @@ RULE = (
     "have started: listeners get the convention update, its actors die, their parents get ChildActorExited, later creations abort)} x {a non-target daemon / a daemon without "
     "ip capability also joins} x preserve-install {off, on} plus externally provisioned clusters; per configuration ALL reachable "
     "states: transitions = deliver the head of any sender/receiver channel | fire any pending timer | a remote daemon joins | the departure. "
+    "Launcher layer: the real ProcessLauncher.stop for 1..3 nodes on a host x every per-node process fate (alive, needs kill, already dead, dies on terminate, dies before kill) x metrics store present/absent. "
     "non-trivial = configuration with more than one node actor or a fault; distinct = canonical state"
 )
 ASSUMPTIONS = [
@@ -385,7 +386,128 @@ def configs(tier):
     return out
 
 
+# ------------------------------------------------------------------------------------------------ launcher layer
+
+FATES = ["alive", "needs-kill", "already-dead", "dies-on-terminate", "dies-before-kill"]
+
+
+def launcher_cases(tier):
+    import itertools
+
+    for n in (1, 2, 3):
+        for fates in itertools.product(FATES, repeat=n):
+            for store in (True, False):
+                if n == 3 and not store and tier == "quick":
+                    continue
+                yield (fates, store)
+
+
+def check_launcher(case, res):
+    """what 'stops every started node exactly once (stop, store system metrics)' means on one host: the real ProcessLauncher.stop over
+    every combination of per-node process fates (psutil replaced by a scripted stand-in)"""
+    fates, with_store = case
+    setup()
+    import psutil
+
+    from esrally import telemetry
+    from esrally.mechanic import launcher
+
+    log = []
+
+    class Proc:
+        def __init__(self, pid):
+            self.pid = pid
+            self.fate = fates[pid - 100]
+            if self.fate == "already-dead":
+                raise psutil.NoSuchProcess(pid)
+
+        def terminate(self):
+            log.append(("terminate", self.pid))
+            if self.fate == "dies-on-terminate":
+                raise psutil.NoSuchProcess(self.pid)
+
+        def wait(self, timeout=None):
+            if self.fate in ("needs-kill", "dies-before-kill"):
+                raise psutil.TimeoutExpired(timeout, self.pid)
+
+        def kill(self):
+            log.append(("kill", self.pid))
+            if self.fate == "dies-before-kill":
+                raise psutil.NoSuchProcess(self.pid)
+
+    class Tel:
+        def __init__(self, i):
+            self.i = i
+
+        def detach_from_node(self, node, running):
+            log.append(("detach", self.i, running))
+
+        def store_system_metrics(self, node, metrics_store):
+            log.append(("system-metrics", self.i))
+
+    class Store:
+        def add_meta_info(self, *a, **k):
+            pass
+
+    class Clock:
+        @staticmethod
+        def stop_watch():
+            return type("SW", (), {"start": lambda self: None, "split_time": lambda self: 0.0})()
+
+    nodes = [type("Node", (), {"node_name": f"n{i}", "host_name": "h", "pid": 100 + i, "telemetry": Tel(i)})() for i in range(len(fates))]
+    real_process, real_meta = launcher.psutil.Process, telemetry.add_metadata_for_node
+    v = None
+    try:
+        launcher.psutil.Process = lambda pid: Proc(pid)
+        telemetry.add_metadata_for_node = lambda store, name, host: log.append(("meta", name))
+        cfg = make_cfg(HOST_LISTS["local"], False)
+        try:
+            stopped = launcher.ProcessLauncher(cfg, clock=Clock).stop(nodes, Store() if with_store else None)
+        except Exception as ex:  # noqa
+            stopped = None
+            v = ("launcher-stop-raises", f"{type(ex).__name__}: {ex}")
+    finally:
+        launcher.psutil.Process = real_process
+        telemetry.add_metadata_for_node = real_meta
+    if v is None:
+        for i, fate in enumerate(fates):
+            pid = 100 + i
+            terms = log.count(("terminate", pid))
+            kills = log.count(("kill", pid))
+            sysm = log.count(("system-metrics", i))
+            if terms != (0 if fate == "already-dead" else 1):
+                v = ("node-terminated-count", f"node {i} ({fate}): terminate called {terms} times")
+            elif kills != (1 if fate in ("needs-kill", "dies-before-kill") else 0):
+                v = ("node-kill-count", f"node {i} ({fate}): kill called {kills} times")
+            elif sysm != (1 if with_store else 0):
+                v = ("system-metrics-stored-count", f"node {i} ({fate}): system metrics stored {sysm} times (metrics store {'present' if with_store else 'absent'})")
+            elif with_store and fate != "already-dead" and log.index(("system-metrics", i)) < log.index(("terminate", pid)):
+                v = ("system-metrics-before-stop", f"node {i} ({fate}): {log}")
+            if v:
+                break
+        want_stopped = [f"n{i}" for i, f in enumerate(fates) if f in ("alive", "needs-kill")]
+        if v is None and [n.node_name for n in stopped] != want_stopped:
+            v = ("stopped-nodes", f"returned {[n.node_name for n in stopped]}, expected {want_stopped}")
+    res.case(
+        case_repr={"launcher_stop": list(fates), "metrics_store": with_store} if res.sample_now(41) else None,
+        nontrivial_key=("launcher", fates, with_store) if len(fates) > 1 or fates[0] != "alive" else None,
+        outcome_key=("launcher", len(fates), with_store, v[0] if v else "ok", len(log)),
+    )
+    if v:
+        res.violation(f"launcher:{v[0]}", f"nodes on one host with process fates {list(fates)}, metrics store {'present' if with_store else 'absent'}: {v[1]}",
+                      {"launcher": [list(fates), with_store]})
+
+
+def _launcher_job(cases):
+    res = Result()
+    for c in cases:
+        check_launcher(c, res)
+    return res
+
+
 def _job(arg):
+    if arg[0] == "launcher":
+        return _launcher_job(arg[1])
     cfgspec, ignore_timers = arg
     setup()
     _S["ignore_timers"] = ignore_timers
@@ -397,7 +519,9 @@ def _job(arg):
 def run(tier, seed):
     cfgs = configs(tier)
     # quick: the periodic metrics flush of node actors (a timer that re-arms itself and changes no state) is not fired
-    res = par.pmap(_job, [(c, tier == "quick") for c in cfgs], seed=seed)
+    lc = list(launcher_cases(tier))
+    res = par.pmap(_job, [(c, tier == "quick") for c in cfgs] + [("launcher", ch) for ch in par.chunks(lc, 4)], seed=seed)
+    res.extra["launcher_stop_cases"] = len(lc)
     res.extra["periodic_flush_timers_fired"] = tier != "quick"
     res.extra["configurations"] = len(cfgs)
     res.bound_completed = "all reachable states (no deviation bound)" if res.exhaustive else "capped"
@@ -407,6 +531,9 @@ def run(tier, seed):
 def replay(data):
     res = Result()
     setup()
+    if "launcher" in data:
+        check_launcher((tuple(data["launcher"][0]), data["launcher"][1]), res)
+        return [v for lst in res.violations.values() for v in lst]
     _S["ignore_timers"] = bool(data.get("ignore_timers", False))
     c = data["cfg"]
     fault = (c[1][0], tuple(c[1][1]) if isinstance(c[1][1], list) else c[1][1]) if c[1] else None
